@@ -2,4 +2,4 @@ From Coq Require Import Extraction ExtrOcamlBasic.
 From IV Require Import Base.Bytes Model.StoreSpec Model.Rest.
 Extraction Language OCaml.
 Extraction "c14_model.ml" conv_anchor spec_init hstep hspec req_path serve spec_serve client_do spec_cop
-  client_wire client_uri spec_visit id_of_k handle_of_id has_html base_of_config render jheader_of jmessage_of juimessage_of.
+  client_wire client_uri spec_visit id_of_k handle_of_id has_html base_of_config render jheader_of jmessage_of juimessage_of qescape.
